@@ -2191,3 +2191,13 @@ for _p in ("C05", "C09"):
       '''        orelse = template("__token = None") + template(
             "SLOT(__stream, econtext.copy(), rcontext)",
             SLOT=name)''')
+
+m("C13", "filler-registered-without-on-error", ZP,
+  "            slots.append(nodes.FillSlot(clause, wrap(slot, ON_ERROR)))",
+  "            slots.append(nodes.FillSlot(clause, slot))")
+m("C13", "macro-registered-without-on-error", ZP,
+  "            self._macros[clause] = wrap(slot, ON_ERROR)",
+  "            self._macros[clause] = slot")
+m("C13", "macro-reference-wrapped-again", ZP,
+  "            slot = nodes.UseInternalMacro(clause)\n            ON_ERROR = skip\n",
+  "            slot = nodes.UseInternalMacro(clause)\n")
